@@ -1,13 +1,14 @@
 #!/usr/bin/env python3
-"""keep_seed.py <Cxx> <seed-id> <caught-by text>  -- copies a confirmed seeded change from /tmp/seed_<Cxx>/out to /verif/seeded/<seed-id>/"""
+"""keep_seed.py <Cxx> <seed-id> <caught-by text> [worktree]  -- copies a confirmed seeded change from /tmp/seed_<Cxx>/out to /verif/seeded/<seed-id>/"""
 import sys, os, shutil, json, re, glob
 prop, sid, caught = sys.argv[1], sys.argv[2], sys.argv[3]
-src = "/tmp/seed_%s/out" % prop
+wt = sys.argv[4] if len(sys.argv) > 4 else "/tmp/seed_%s" % prop
+src = wt + "/out"
 dst = "/verif/seeded/%s" % sid
 os.makedirs(dst, exist_ok=True)
 for f in os.listdir(src):
     shutil.copy(os.path.join(src, f), os.path.join(dst, f))
-demo = glob.glob("/tmp/seed_%s/tests/seed_*.rs" % prop)
+demo = glob.glob(wt + "/tests/seed*_*.rs")
 for d in demo:
     shutil.copy(d, dst)
 notes = open(os.path.join(src, "notes.md")).read() if os.path.exists(os.path.join(src, "notes.md")) else ""
